@@ -1,7 +1,7 @@
 (* Properties_C20.v — C20: with TLS configured, nothing is routed before a completed handshake
    (on the gate model of Tls.v, for every TLS engine; partial: see DESIGN.md). *)
 From Coq Require Import String List Ascii ZArith Bool.
-From QH Require Import Bytes Value Tls TlsProofs.
+From QH Require Import Bytes Value Tls TlsProofs Interleave.
 Import ListNotations.
 
 (* whatever a client sends and however it is segmented: as long as the bytes never complete a handshake, nothing is
@@ -52,6 +52,15 @@ Theorem C20_branch_follows_current_config : forall tls pre b n,
   srun tls (pre ++ SSetConfig b :: repeat SAccept n) = srun tls pre ++ repeat b n.
 Proof. exact branch_follows_current_config. Qed.
 Print Assumptions C20_branch_follows_current_config.
+
+(* any number of connections open at the same time, their bytes and disconnects interleaved in any way: each connection goes through
+   the gate exactly as it would alone (the gate keeps no state across connections) *)
+Theorem C20_connections_independent : forall completes fails decrypt sched ss i s,
+  nth_error ss i = Some s ->
+  proj tout i (irun tconn tin tout (tstep completes fails decrypt) ss sched) =
+  run tconn tin tout (tstep completes fails decrypt) s (ops_of tin i sched).
+Proof. intros completes fails decrypt. exact (interleaving_independent tconn tin tout (tstep completes fails decrypt)). Qed.
+Print Assumptions C20_connections_independent.
 
 Theorem C20_premises_satisfiable :
   let completes := fun a => beq a (B "abc") in
